@@ -16,11 +16,11 @@ pub const DENOMS: [&str; 3] = ["uwhale", "uusdc", "uatom"];
 const RICH: u128 = 1_000_000_000_000_000;
 
 #[derive(Clone, Copy, PartialEq, Debug)]
-pub enum PoolKind { PairNN, PairNC, TrioNNN, TrioNNC }
+pub enum PoolKind { PairNN, PairNC, TrioNNN, TrioNNC, StableNN, StableNC }
 impl PoolKind {
-    pub fn is_pair(self) -> bool { matches!(self, PoolKind::PairNN | PoolKind::PairNC) }
-    pub fn name(self) -> &'static str { match self { PoolKind::PairNN => "pair(native,native)", PoolKind::PairNC => "pair(native,cw20)", PoolKind::TrioNNN => "3pool(native,native,native)", PoolKind::TrioNNC => "3pool(native,native,cw20)" } }
-    pub fn index(self) -> u32 { match self { PoolKind::PairNN => 0, PoolKind::PairNC => 1, PoolKind::TrioNNN => 2, PoolKind::TrioNNC => 3 } }
+    pub fn is_pair(self) -> bool { matches!(self, PoolKind::PairNN | PoolKind::PairNC | PoolKind::StableNN | PoolKind::StableNC) }
+    pub fn name(self) -> &'static str { match self { PoolKind::PairNN => "pair(native,native)", PoolKind::PairNC => "pair(native,cw20)", PoolKind::TrioNNN => "3pool(native,native,native)", PoolKind::TrioNNC => "3pool(native,native,cw20)", PoolKind::StableNN => "stableswap pair(native,native)", PoolKind::StableNC => "stableswap pair(native,cw20)" } }
+    pub fn index(self) -> u32 { match self { PoolKind::PairNN => 0, PoolKind::PairNC => 1, PoolKind::TrioNNN => 2, PoolKind::TrioNNC => 3, PoolKind::StableNN => 4, PoolKind::StableNC => 5 } }
 }
 
 /// entry paths, numbered as Toggles.v `ppath_of_Z`
@@ -89,8 +89,8 @@ pub fn deploy(kind: PoolKind) -> Result<PoolWorld, String> {
     }
     let tokinfo = AssetInfo::Token { contract_addr: tok.to_string() };
     let assets: Vec<AssetInfo> = match kind {
-        PoolKind::PairNN => vec![native(DENOMS[0]), native(DENOMS[1])],
-        PoolKind::PairNC => vec![native(DENOMS[0]), tokinfo.clone()],
+        PoolKind::PairNN | PoolKind::StableNN => vec![native(DENOMS[0]), native(DENOMS[1])],
+        PoolKind::PairNC | PoolKind::StableNC => vec![native(DENOMS[0]), tokinfo.clone()],
         PoolKind::TrioNNN => vec![native(DENOMS[0]), native(DENOMS[1]), native(DENOMS[2])],
         PoolKind::TrioNNC => vec![native(DENOMS[0]), native(DENOMS[1]), tokinfo.clone()],
     };
@@ -98,7 +98,7 @@ pub fn deploy(kind: PoolKind) -> Result<PoolWorld, String> {
         app.execute_contract(owner.clone(), factory.clone(), &factory::ExecuteMsg::CreatePair {
             asset_infos: [assets[0].clone(), assets[1].clone()],
             pool_fees: pair::PoolFee { protocol_fee: fee(1_000_000_000_000_000), swap_fee: fee(2_000_000_000_000_000), burn_fee: fee(0) },
-            pair_type: PairType::ConstantProduct, token_factory_lp: false }, &[]).map_err(e)?;
+            pair_type: if matches!(kind, PoolKind::StableNN | PoolKind::StableNC) { PairType::StableSwap { amp: 100 } } else { PairType::ConstantProduct }, token_factory_lp: false }, &[]).map_err(e)?;
         let info: PairInfo = app.wrap().query_wasm_smart(&factory, &factory::QueryMsg::Pair { asset_infos: [assets[0].clone(), assets[1].clone()] }).map_err(|x| x.to_string())?;
         let lp = match info.liquidity_token { AssetInfo::Token { contract_addr } => Addr::unchecked(contract_addr), _ => return Err("native lp".into()) };
         (Addr::unchecked(info.contract_addr), lp)
@@ -201,8 +201,8 @@ impl PoolWorld {
         match p {
             P_PROVIDE | P_WITHDRAW_HOOK | P_WITHDRAW_DIRECT | P_SWAP_DIRECT | P_COLLECT => true,
             P_PROVIDE_HELPER | P_SWAP_ROUTER => self.kind.is_pair(),
-            P_SWAP_HOOK => matches!(self.kind, PoolKind::PairNC | PoolKind::TrioNNC),
-            P_SWAP_ROUTER_HOOK => self.kind == PoolKind::PairNC,
+            P_SWAP_HOOK => matches!(self.kind, PoolKind::PairNC | PoolKind::TrioNNC | PoolKind::StableNC),
+            P_SWAP_ROUTER_HOOK => matches!(self.kind, PoolKind::PairNC | PoolKind::StableNC),
             _ => false,
         }
     }
